@@ -193,3 +193,23 @@ func chunksArg(chunks [][]byte) string {
 	}
 	return strings.Join(parts, ",")
 }
+
+// implInterp is INTERP: the observable semantics of Interpret on a source.
+func implInterp(src []byte) string {
+	return guarded(opTimeout, func() string {
+		var out, log bytes.Buffer
+		res, binding, err := bcl.Interpret(src, bcl.OptOutput(&out), bcl.OptLogger(&log))
+		lg := canonLog(log.Bytes())
+		if err != nil && err.Error() == "combined errors from parse" {
+			if res != nil || binding != nil || out.Len() != 0 {
+				return "REJECTED-WITH-RESULTS"
+			}
+			return "rejected log=" + hx(lg)
+		}
+		e := "-"
+		if err != nil {
+			e = hxe([]byte(err.Error()))
+		}
+		return fmt.Sprintf("accepted log=%s err=%s out=%s blocks=%s binding=%s", hx(lg), e, hx(out.Bytes()), fmtBlocks(res), fmtBinding(binding))
+	})
+}
